@@ -111,6 +111,16 @@ def _extra():
     for kw in ("inline ", ""):
         add("opt-inlined-protected-branch", "unsigned char i, c; %svoid f() { for (X = 0; X <= 10; X++) i++; }" % kw, "c = 200; c += 100; i = 0; f();", {"expect": {"i": 11}}, "carry set before the %scall" % kw)
         add("opt-inlined-protected-branch", "unsigned char i, c; %svoid f() { for (X = 0; X <= 10; X++) i++; }" % kw, "c = 1; c += 1; i = 0; f();", {"expect": {"i": 11}}, "carry clear before the %scall" % kw)
+    # inline assembly can change any register: nothing the optimizer knew before it holds after it; a transfer to X / Y changes N and Z
+    add("opt-across-inline-asm", "unsigned char r;", "X = 0; asm(\"LDX #5\", 2); X = 0; r = X;", {"expect": {"r": 0}}, "LDX #0 again after the asm line")
+    add("opt-across-inline-asm", "unsigned char r, v;", "v = 3; asm(\"LDA #9\", 2); r = v;", {"expect": {"r": 3}}, "A reloaded after the asm line")
+    for j, k in ((0, 3), (3, 0), (0, 0)):
+        add("register-transfer-flags", "unsigned char j, k, r;", "r = 0; load(j); X = k; store(Y); if (X) r = 1;", {"init": {"j": j, "k": k}, "expect": {"r": int(k != 0)}}, "TAY between X = k and if (X), j=%d k=%d" % (j, k))
+        add("register-transfer-flags", "unsigned char j, k, r;", "r = 0; load(j); Y = k; store(X); if (Y) r = 1;", {"init": {"j": j, "k": k}, "expect": {"r": int(k != 0)}}, "TAX between Y = k and if (Y), j=%d k=%d" % (j, k))
+    # a belief "N/Z describe X" must not survive an instruction that sets them from something else (TYA, ADC, PLA ...)
+    for yv in (255, 0, 7):
+        add("opt-reload-flags", "unsigned char a, r;", "r = 0; Y = %d; X = 5; a = Y + 1; X = 5; if (X) r = 1;" % yv, {"expect": {"r": 1}}, "ADC between two X = 5, Y=%d" % yv)
+        add("opt-reload-flags", "unsigned char a, r;", "r = 0; X = %d; Y = 5; a = X + 1; Y = 5; if (Y) r = 1;" % yv, {"expect": {"r": 1}}, "ADC between two Y = 5, X=%d" % yv)
     # loops: for / while / do-while agree
     for n in (0, 1, 5, 200):
         tot = sum(range(n)) & 255
